@@ -107,10 +107,19 @@ fn run_case(rec: &mut Rec, desc: &Value) {
         } else {
             o1.map.clone()
         };
-        (o0, o1, tr, trm, is_poly, map2, map3)
+        // texts and images: the translated OBJECT drawn itself, by translate and by translate_mut
+        let mut objs = vec![];
+        if d["kind"] != "prim" {
+            for mode in 0..2u32 {
+                let mut t = MapTarget::<C>::new();
+                let (next, bb) = draw_translated_object::<C, _>(d, by, mode, &mut t).unwrap();
+                objs.push(json!({"map": cruns_of(&t.map), "box": rect_json(&bb), "next": next.map_or(json!([]), pt_json)}));
+            }
+        }
+        (o0, o1, tr, trm, is_poly, map2, map3, objs)
     });
     match r {
-        Ok((o0, o1, tr, trm, is_poly, map2, map3)) => {
+        Ok((o0, o1, tr, trm, is_poly, map2, map3, objs)) => {
             if o0.npx > 0 {
                 rec.nontrivial();
             }
@@ -118,7 +127,7 @@ fn run_case(rec: &mut Rec, desc: &Value) {
                 "pair",
                 json!({"by": desc["by"], "map0": o0.map, "map1": o1.map, "box0": o0.bbox, "box1": o1.bbox, "next0": o0.next, "next1": o1.next,
                     "pts0": o0.pts, "pts1": o1.pts, "cont0": o0.cont, "cont1": o1.cont, "tr": tr, "trm": trm,
-                    "poly": is_poly as i32, "map2": map2, "map3": map3}),
+                    "poly": is_poly as i32, "map2": map2, "map3": map3, "objs": objs}),
             );
         }
         Err(p) => {
